@@ -459,20 +459,57 @@ func sameValue(a, b ssa.Value) bool {
 // comparison of a slot member with a value the goroutine captured when it was started.
 func c11SlotOwner(c *Ctx) {
 	n := 0
+	// functions that belong to a goroutine: started with `go` (closure or method), declared inside such a function, or
+	// called / deferred only by such functions (the goroutine's body split into methods)
+	goRooted := map[*ssa.Function]bool{}
 	for _, fn := range c.P.LibFns {
-		if !clientSide(c, fn) || fn.Parent() == nil {
-			continue
-		}
-		// fn belongs to a goroutine: it, or an enclosing closure, is started with `go`
-		inGo := false
-		for f := fn; f != nil && f.Parent() != nil; f = f.Parent() {
-			for _, e := range ir.Callers(c.G, f) {
-				if _, ok := e.Site.(*ssa.Go); ok {
-					inGo = true
-				}
+		for _, e := range ir.Callers(c.G, fn) {
+			if _, ok := e.Site.(*ssa.Go); ok {
+				goRooted[fn] = true
 			}
 		}
-		if !inGo {
+	}
+	for iter := 0; iter < 3; iter++ {
+		for _, fn := range c.P.LibFns {
+			if goRooted[fn] {
+				continue
+			}
+			if p := fn.Parent(); p != nil && goRooted[p] {
+				goRooted[fn] = true
+				continue
+			}
+			nLib, all := 0, true
+			for _, e := range ir.Callers(c.G, fn) {
+				if e.Site == nil || !c.P.IsLib(e.Caller.Func) {
+					continue
+				}
+				nLib++
+				if !goRooted[e.Caller.Func] {
+					all = false
+				}
+			}
+			if nLib > 0 && all {
+				goRooted[fn] = true
+			}
+		}
+	}
+	for _, fn := range c.P.LibFns {
+		if !clientSide(c, fn) || !goRooted[fn] {
+			continue
+		}
+		// the function that opens a stream installs a context it has just created into the slot: that is the
+		// replacement itself (done under the slot's lock), not a stream's exit
+		opener := false
+		ir.EachInstr(fn, func(_ *ssa.BasicBlock, _ int, in ssa.Instruction) {
+			if st, ok := in.(*ssa.Store); ok {
+				if fa, ok := st.Addr.(*ssa.FieldAddr); ok && slotOf(fa) != "" {
+					if oc := originCall(st.Val); oc != nil && strings.HasPrefix(ir.CallName(oc), "context.With") {
+						opener = true
+					}
+				}
+			}
+		})
+		if opener {
 			continue
 		}
 		ir.EachInstr(fn, func(_ *ssa.BasicBlock, _ int, in ssa.Instruction) {
@@ -528,6 +565,8 @@ func c11SlotOwner(c *Ctx) {
 					switch y := v.(type) {
 					case *ssa.FreeVar:
 						return true
+					case *ssa.Parameter:
+						return true // handed to the goroutine's function when it was started
 					case *ssa.UnOp:
 						_, fv := y.X.(*ssa.FreeVar)
 						return fv
